@@ -11,6 +11,7 @@
   Option names are numbers (the harness maps them to identifiers).
 -/
 import MitmVerif.Basic.Bytes
+import MitmVerif.Gen.C44
 namespace MitmVerif.C44
 
 abbrev Name := Nat
@@ -134,7 +135,7 @@ def notify (s : Store) (updated : List Name) : List Listener → List Obs × Boo
 /-- a deferred value: typed (from `update_defer`) or `_UnconvertedStrings` (from `set(defer=True)`) -/
 inductive DVal
   | typed (v : Val)
-  | unconv (vs : List Bytes)
+  | unconv (vs : List (List Nat))
 
 structure St where
   opts : Store
@@ -222,54 +223,90 @@ def reset (st : St) : Res :=
 
 /-! ### `set` specs -/
 
-def digitsVal : List UInt8 → Option Nat
-  | [] => none
-  | ds => ds.foldl (fun acc c => match acc with
-      | none => none
-      | some n => if 48 ≤ c.toNat ∧ c.toNat ≤ 57 then some (n * 10 + (c.toNat - 48)) else none) (some 0)
+/-- a Python `str` as it arrives in a `set` spec: code points -/
+abbrev PyStr := List Nat
 
-/-- `int(s)` restricted to `[+-]?[0-9]+` (the generator stays inside this grammar or produces
-    strings Python rejects as well) -/
-def parseInt : Bytes → Option Int
-  | 0x2d :: ds => (digitsVal ds).map fun n => - (Int.ofNat n)
-  | 0x2b :: ds => (digitsVal ds).map Int.ofNat
-  | ds => (digitsVal ds).map Int.ofNat
+def utf8Char (c : Nat) : Bytes :=
+  if c < 0x80 then [UInt8.ofNat c]
+  else if c < 0x800 then [UInt8.ofNat (0xc0 + c / 64), UInt8.ofNat (0x80 + c % 64)]
+  else if c < 0x10000 then [UInt8.ofNat (0xe0 + c / 4096), UInt8.ofNat (0x80 + c / 64 % 64), UInt8.ofNat (0x80 + c % 64)]
+  else [UInt8.ofNat (0xf0 + c / 262144), UInt8.ofNat (0x80 + c / 4096 % 64), UInt8.ofNat (0x80 + c / 64 % 64),
+        UInt8.ofNat (0x80 + c % 64)]
+
+/-- option values hold strings as UTF-8 -/
+def utf8 (s : PyStr) : Bytes := s.flatMap utf8Char
+
+/-- `Py_UNICODE_TODECIMAL`: ASCII digits and every Unicode Nd character (blocks of ten, `Gen.C44.digitBlocks`) -/
+def decDigit (c : Nat) : Option Nat :=
+  if 48 ≤ c ∧ c ≤ 57 then some (c - 48)
+  else if c < 128 then none
+  else (Gen.C44.digitBlocks.find? (fun b => b ≤ c && c < b + 10)).map (c - ·)
+
+/-- what `int()` skips around the number: ASCII `Py_ISSPACE` (TAB..CR, space) and the non-ASCII `str.isspace()`
+    characters (`Gen.C44.spaces`); the ASCII separators 0x1c–0x1f are NOT skipped -/
+def isIntSpace (c : Nat) : Bool := c == 32 || (9 ≤ c && c ≤ 13) || (c > 127 && Gen.C44.spaces.contains c)
+
+/-- digits with single underscores between them; `last`: 0 = nothing yet, 1 = after a digit, 2 = after `_` -/
+def digitsU : Nat → Nat → PyStr → Option (Nat × PyStr)
+  | acc, last, [] => if last == 1 then some (acc, []) else none
+  | acc, last, c :: r =>
+    match decDigit c with
+    | some d => digitsU (acc * 10 + d) 1 r
+    | none =>
+      if c == 95 then (if last == 1 then digitsU acc 2 r else none)
+      else if last == 1 then some (acc, c :: r) else none
+
+/-- Python `int(s)` for a `str` (base 10): optional surrounding whitespace, optional sign, decimal digits of any
+    script with single underscores between digits. `none` = ValueError. -/
+def pyInt (s : PyStr) : Option Int :=
+  let s1 := s.dropWhile isIntSpace
+  let (neg, s2) := match s1 with
+    | 45 :: r => (true, r)
+    | 43 :: r => (false, r)
+    | r => (false, r)
+  match digitsU 0 0 s2 with
+  | some (n, rest) => if rest.all isIntSpace then some (if neg then - (Int.ofNat n) else Int.ofNat n) else none
+  | none => none
+
+def strToggle : PyStr := "toggle".toList.map Char.toNat
+def strTrue : PyStr := "true".toList.map Char.toNat
+def strFalse : PyStr := "false".toList.map Char.toNat
 
 /-- `OptManager._parse_setval(o, values)`; `none` = OptionsError -/
-def parseSetval (o : Opt) (values : List Bytes) : Option Val :=
-  if o.ty = .seqStr then some (.seq (values.map Atom.s))
+def parseSetval (o : Opt) (values : List PyStr) : Option Val :=
+  if o.ty = .seqStr then some (.seq (values.map fun v => Atom.s (utf8 v)))
   else if values.length > 1 then none
   else
     let optstr := values.head?
     match o.ty with
-    | .str => optstr.map fun s => .a (.s s)
-    | .optStr => some (match optstr with | some s => .a (.s s) | none => .a .none)
+    | .str => optstr.map fun s => .a (.s (utf8 s))
+    | .optStr => some (match optstr with | some s => .a (.s (utf8 s)) | none => .a .none)
     | .int =>
       match optstr with
-      | some s => if s.isEmpty then none else (parseInt s).map fun n => .a (.i n)
+      | some s => if s.isEmpty then none else (pyInt s).map fun n => .a (.i n)
       | none => none
     | .optInt =>
       match optstr with
-      | some s => if s.isEmpty then some (.a .none) else (parseInt s).map fun n => .a (.i n)
+      | some s => if s.isEmpty then some (.a .none) else (pyInt s).map fun n => .a (.i n)
       | none => some (.a .none)
     | .bool =>
       match optstr with
       | none => some (.a (.b true))
       | some s =>
-        if s = "toggle".toUTF8.toList then some (.a (.b (!truthy o.cur)))
-        else if s.isEmpty ∨ s = "true".toUTF8.toList then some (.a (.b true))
-        else if s = "false".toUTF8.toList then some (.a (.b false))
+        if s = strToggle then some (.a (.b (!truthy o.cur)))
+        else if s.isEmpty ∨ s = strTrue then some (.a (.b true))
+        else if s = strFalse then some (.a (.b false))
         else none
-    | .seqStr => some (.seq (values.map Atom.s))
+    | .seqStr => some (.seq (values.map fun v => Atom.s (utf8 v)))
 
 /-- first stage of `set`: group the specs by option name (`name=value` appends, bare `name` only
     creates the entry) -/
-def groupSpecs (specs : List (Name × Option Bytes)) : List (Name × List Bytes) :=
+def groupSpecs (specs : List (Name × Option PyStr)) : List (Name × List PyStr) :=
   specs.foldl (fun d sp =>
     let old := ((d.find? (·.1 == sp.1)).map (·.2)).getD []
     dictSet d sp.1 (match sp.2 with | some v => old ++ [v] | none => old)) []
 
-def parseAll (s : Store) : List (Name × List Bytes) → Option (List (Name × Val))
+def parseAll (s : Store) : List (Name × List PyStr) → Option (List (Name × Val))
   | [] => some []
   | (n, vs) :: r =>
     match lookup s n with
@@ -280,7 +317,7 @@ def parseAll (s : Store) : List (Name × List Bytes) → Option (List (Name × V
       | _, _ => none
 
 /-- `OptManager.set(*specs, defer=…)` -/
-def setSpecs (st : St) (specs : List (Name × Option Bytes)) (defer : Bool) : Res :=
+def setSpecs (st : St) (specs : List (Name × Option PyStr)) (defer : Bool) : Res :=
   let g := groupSpecs specs
   match parseAll st.opts g with
   | none => ⟨st, .optionsError, [], []⟩
@@ -323,7 +360,7 @@ inductive Op
   | update (kw : List (Name × Val))
   | updateKnown (kw : List (Name × Val))
   | updateDefer (kw : List (Name × Val))
-  | set (specs : List (Name × Option Bytes)) (defer : Bool)
+  | set (specs : List (Name × Option PyStr)) (defer : Bool)
   | processDeferred
   | reset
 
@@ -433,7 +470,7 @@ def resetN (st : St) : Res :=
   let r := notifyW (nestedAt maxDepth st.listeners) (opts.map (·.1)) opts st.listeners
   ⟨{ st with opts := r.1 }, if r.2.2 then .optionsError else .ok, r.2.1, []⟩
 
-def setSpecsN (st : St) (specs : List (Name × Option Bytes)) (defer : Bool) : Res :=
+def setSpecsN (st : St) (specs : List (Name × Option PyStr)) (defer : Bool) : Res :=
   let g := groupSpecs specs
   match parseAll st.opts g with
   | none => ⟨st, .optionsError, [], []⟩
